@@ -63,10 +63,10 @@ fn compare(acc: &mut Acc, reg: &Registry, s: &dyn Subject, base: &Ov, base_run: 
 }
 
 pub fn run(ctx: &Ctx, reg: &Registry) -> i32 {
-    let n_cases: u64 = ctx.tier.pick(200, 2500);
+    let n_cases: u64 = ctx.tier.pick(200, 400);
     // cap on single-object permutations per payload (objects are visited in a rotating order so that every
     // depth gets its share); objects with <= 5 members are always permuted completely once started
-    let per_case_cap: usize = ctx.tier.pick(240, 1200);
+    let per_case_cap: usize = ctx.tier.pick(240, 480);
     let n_joint: u64 = ctx.tier.pick(4, 16);
     let acc = ctx.par(|shard, n| {
         let mut acc = Acc::new();
